@@ -91,6 +91,7 @@ type classDesc struct {
 	varAfterFunc bool // the only var block follows the first function: not the class fields
 	dupField     bool // a repeated field name (compile error "redeclared")
 	capture      bool // embedded *strings.Reader + method using len(): member captures builtin
+	predecl      bool // some members are named like Go predeclared identifiers
 	globals      []globalVar
 	methods      []methodDesc
 	explicitRecv bool // one extra method on the auxiliary type declared in the file
@@ -132,13 +133,19 @@ type gen struct {
 	boolF   []string
 	floatF  []string
 	methods []methodDesc
+	avoid   map[string]bool // predeclared names taken by members: the bodies must not use them as builtins
 }
+
+// Go predeclared identifiers usable as member names: inside a class-file method the bare name
+// denotes the member (this.<name>), in the explicit form it is written this.<name>.
+var predeclNames = []string{"min", "max", "len", "cap", "new", "println", "print", "string", "int", "error",
+	"true", "false", "nil", "append", "copy", "close", "iota", "real", "imag", "panic", "delete", "recover", "complex", "clear"}
 
 var fieldStems = []string{"fa", "fb", "fc", "fd", "fe", "fg", "fh", "fi", "fj", "fk", "fl", "fm"}
 
 func genClass(r *vh.Rand, idx int, tier string) *classDesc {
 	c := &classDesc{idx: idx, name: fmt.Sprintf("C%d", idx)}
-	g := &gen{r: r, c: c}
+	g := &gen{r: r, c: c, avoid: map[string]bool{}}
 	// leading GenDecls
 	for _, k := range []string{"I", "K", "T"} {
 		if r.Chance(45) {
@@ -164,8 +171,27 @@ func genClass(r *vh.Rand, idx int, tier string) *classDesc {
 	if tier == "thorough" && r.Chance(20) {
 		nf = 6 + r.Intn(5)
 	}
+	c.predecl = !c.varAfterFunc && !c.dupField && r.Chance(40)
+	pool := append([]string{}, predeclNames...)
+	rp := r.Fork(2)
+	for i := len(pool) - 1; i > 0; i-- {
+		j := rp.Intn(i + 1)
+		pool[i], pool[j] = pool[j], pool[i]
+	}
+	takeP := func() (string, bool) {
+		if c.predecl && len(pool) > 0 && rp.Chance(55) {
+			n := pool[0]
+			pool = pool[1:]
+			g.avoid[n] = true
+			return n, true
+		}
+		return "", false
+	}
 	stem := 0
 	next := func() string {
+		if n, ok := takeP(); ok {
+			return n
+		}
 		s := fieldStems[stem%len(fieldStems)]
 		stem++
 		if c.varAfterFunc { // these become package-level variables: unique per class
@@ -291,8 +317,16 @@ func genClass(r *vh.Rand, idx int, tier string) *classDesc {
 	// methods
 	nm := 1 + r.Intn(4)
 	mnames := []string{"ma", "mb", "Area", "grow", "Describe", "mf"}
+	// all member names are fixed before any body is generated (the bodies avoid them as builtins)
+	methodNames := make([]string, nm)
+	for i := range methodNames {
+		methodNames[i] = fmt.Sprintf("%s%d", mnames[i%len(mnames)], idx)
+		if n, ok := takeP(); ok {
+			methodNames[i] = n
+		}
+	}
 	for i := 0; i < nm; i++ {
-		m := methodDesc{name: fmt.Sprintf("%s%d", mnames[i%len(mnames)], idx)}
+		m := methodDesc{name: methodNames[i]}
 		np := r.Intn(3)
 		for k := 0; k < np; k++ {
 			t := "int"
@@ -354,7 +388,7 @@ func (g *gen) expr(m *methodDesc, typ string, depth int) *expr {
 		lens = append(lens, g.sliceS...)
 		lens = append(lens, g.mapF...)
 		lens = append(lens, g.strF...)
-		if len(lens) > 0 {
+		if len(lens) > 0 && !g.avoid["len"] {
 			choices = append(choices, func() *expr { return &expr{op: "len", field: g.pick(lens), bare: bare, typ: typ} })
 		}
 		for _, gv := range g.c.globals {
@@ -435,13 +469,13 @@ func (g *gen) stmt(m *methodDesc, depth int) stmt {
 			return stmt{op: "addassign", field: g.pick(g.strF), e: e, bare: bare}
 		})
 	}
-	if len(g.sliceI) > 0 {
+	if len(g.sliceI) > 0 && !g.avoid["append"] {
 		choices = append(choices, func() stmt { return stmt{op: "append", field: g.pick(g.sliceI), e: g.expr(m, "int", 1), bare: bare} })
 	}
-	if len(g.sliceS) > 0 {
+	if len(g.sliceS) > 0 && !g.avoid["append"] {
 		choices = append(choices, func() stmt { return stmt{op: "append", field: g.pick(g.sliceS), e: g.expr(m, "string", 1), bare: bare} })
 	}
-	if len(g.mapF) > 0 {
+	if len(g.mapF) > 0 && !g.avoid["nil"] && !g.avoid["string"] && !g.avoid["int"] {
 		choices = append(choices, func() stmt {
 			return stmt{op: "mapset", field: g.pick(g.mapF), e: g.expr(m, "string", 0), e2: g.expr(m, "int", 1), bare: bare}
 		})
@@ -1101,6 +1135,9 @@ func run(classes []*classDesc, o *vh.Out, workdir string, seed uint64) {
 			if len(f.names) > 1 {
 				o.Count("field_multiname")
 			}
+		}
+		if c.predecl {
+			o.Count("shape_predeclared_member_names")
 		}
 		switch {
 		case c.noVarBlock:
